@@ -1,4 +1,6 @@
 import AL.Model.Visit
+import AL.Lemmas.VisitMatrix
+import AL.Lemmas.TyWf
 /-
   C05 — "matrix sees exactly the row keys plus include keys … Where the defining section is given by an expression
   instead of a literal, references into it are not reported": the type `checkMatrix` computes for the `matrix` context in
@@ -55,5 +57,87 @@ def matrix_expression_open_statement : Prop :=
 def include_element_any_opens_statement : Prop :=
   ∀ (ev : Visit.Ev) (ps : List (String × Ty)) (e : E), ev e = some Ty.any →
     includeCombo ev (Ty.obj ps none) (.expr e) = Ty.obj ps (some Ty.any)
+
+/-! ### proofs -/
+
+theorem allAssigns_forall : ∀ (cs : List ComboM), allAssigns cs → ∀ c ∈ cs, ∃ as, c = ComboM.assigns as
+  | [], _, c, hc => by cases hc
+  | .assigns as :: cs, h, c, hc => by
+    rcases List.mem_cons.1 hc with rfl | hc
+    · exact ⟨as, rfl⟩
+    · exact allAssigns_forall cs h c hc
+  | .expr _ :: _, h, _, _ => h.elim
+
+theorem comboKeys_iff (cs : List ComboM) (x : String) :
+    (∃ as, ComboM.assigns as ∈ cs ∧ x ∈ as.map (·.1)) ↔ ∃ c ∈ cs, x ∈ comboKeys c := by
+  constructor
+  · rintro ⟨as, hm, hx⟩
+    exact ⟨_, hm, hx⟩
+  · rintro ⟨c, hm, hx⟩
+    cases c with
+    | assigns as => exact ⟨as, hm, hx⟩
+    | expr e => simp [comboKeys] at hx
+
+/-- the literal matrix with literal include entries, as an object: strict, keys = row keys + include keys -/
+theorem literal_matrix_shape (ev : Visit.Ev) (rows : List (String × RowM)) (cs : List ComboM) (h : allAssigns cs) :
+    ∃ ps, matrixLitTy ev rows (.combos cs) = .obj ps none ∧
+      ∀ x, (Ty.lookup x ps).isSome = true ↔ (x ∈ rows.map (·.1) ∨ ∃ c ∈ cs, x ∈ comboKeys c) := by
+  obtain ⟨ps, e, k⟩ := foldl_includeCombo_assigns ev cs (allAssigns_forall cs h)
+    (rows.foldl (fun ps kr => Ty.setProp kr.1 (rowTy ev kr.2) ps) []) none
+  refine ⟨ps, by rw [matrixLitTy_combos, e], fun x => ?_⟩
+  rw [k x, lookup_rowsFold_isSome, lookup_nil_isSome, comboKeys_iff]
+  simp
+
+theorem literal_matrix_strict : literal_matrix_strict_statement := by
+  intro ev rows cs h
+  obtain ⟨ps, e, _⟩ := literal_matrix_shape ev rows cs h
+  exact ⟨by rw [e]; rfl, ps, e⟩
+
+theorem literal_matrix_keys : literal_matrix_keys_statement := by
+  intro ev rows cs x h
+  obtain ⟨ps, e, k⟩ := literal_matrix_shape ev rows cs h
+  rw [e]
+  exact k x
+
+theorem rows_only_keys : rows_only_keys_statement := by
+  intro ev rows x
+  rw [matrixLitTy_none]
+  show (Ty.lookup x (rows.foldl (fun ps kr => Ty.setProp kr.1 (rowTy ev kr.2) ps) [])).isSome = true ↔ _
+  rw [lookup_rowsFold_isSome, lookup_nil_isSome]
+  simp
+
+theorem include_expression_open : include_expression_open_statement :=
+  fun ev rows e h => matrixLitTy_expr_open ev rows e h
+
+theorem matrix_expression_open : matrix_expression_open_statement :=
+  fun ev e h => matrixExprTy_open ev e h
+
+/-- `Ty.merge (.obj ps none) .any = .any` is not an object, so `includeCombo` takes the `loosen` branch: the known keys
+stay, `mapped` becomes `any`. True as stated. -/
+theorem include_element_any_opens : include_element_any_opens_statement :=
+  fun ev ps e h => includeCombo_expr_any ev ps none e h
+
+/-! ### the statements on concrete data: rows `os`, `ver`; include entries assigning `os` and `extra` -/
+
+def exRows : List (String × RowM) :=
+  [("os", .values [.string, .string]), ("ver", .values [.number, .string])]
+def exCombos : List ComboM :=
+  [.assigns [("os", .string), ("extra", .bool)], .assigns [("extra", .expr (.str "x"))]]
+
+/-- strict object with exactly the keys `extra`, `os`, `ver` (key-sorted) -/
+example : matrixLitTy (fun _ => none) exRows (.combos exCombos) =
+    .obj [("extra", .any), ("os", .string), ("ver", .string)] none := by
+  simp [matrixLitTy, exRows, exCombos, includeCombo, rowTy, rawTy, rawTyFold, Ty.setProp, Ty.lookup]
+  ty_eval
+
+example : allAssigns exCombos ∧ (∃ c ∈ exCombos, "extra" ∈ comboKeys c) ∧ ¬ (∃ c ∈ exCombos, "nope" ∈ comboKeys c) := by
+  simp [allAssigns, exCombos, comboKeys]
+
+/-- an include element of type `any` after the literal ones: the three keys stay, the object is open -/
+example : matrixLitTy (fun _ => some Ty.any) exRows (.combos (exCombos ++ [.expr (.str "y")])) =
+    .obj [("extra", .any), ("os", .string), ("ver", .string)] (some .any) := by
+  simp [matrixLitTy, exRows, exCombos, includeCombo, rowTy, rawTy, rawTyFold, Ty.setProp, Ty.lookup]
+  ty_eval
+  rfl
 
 end AL.Props.C05Matrix
